@@ -14,8 +14,11 @@ Tie (DESIGN.md §3 C02):
       `ast.parse` of the emitted module (and `ExtractOperationsPlugin._get_operations_module/_module_to_str`),
       on seeded random operation texts; plus the CPython reference semantics (`splitlines`, `repr`,
       `textwrap.indent`, triple-quoted literal evaluation) against the running interpreter;
-  (c) inside the four text-trigger regions (model answers `.unmodelled`) only "does the real pipeline
-      preserve the text" is observed, to keep the findings confirmed.
+  (c) the text-trigger regions: inside `textEscN` and `textLineSep` the model ANSWERS (it is exact on every text
+      without `'` and triple double quotes; Properties/C02.lean `embed_described`) and is compared with the real pipeline like on
+      safe texts — unparsed constants, rewritten literal, the value Python reads back — and its closed form
+      `describedSent` with what the real pipeline sends; inside `textQuote` and `textBlockString` (model answers
+      `.unmodelled`) only "does the real pipeline preserve the text" is observed, to keep the findings confirmed.
 Oracle (the property itself, through the real generated client, `e2e.run_case`): the captured `query` parses,
 validates against the USER's schema (no injected @mixin) under `specified_rules`, `operationName` names its single
 operation, and after undoing the two documented rewrites it is AST-equal (graphql-core nodes, locations ignored)
@@ -40,6 +43,7 @@ PROP = "C02"
 TYPENAME = "__typename"
 MIXIN = "mixin"
 TEXT_TRIGGERS = ("textBlockString", "textQuote", "textEscN", "textLineSep")
+TEXT_DECLINED = ("textBlockString", "textQuote")  # twin of Ariadne.Embed.Trig.declined: the model answers `.unmodelled`
 LINE_SEPS = "\n\r\x0b\x0c\x1c\x1d\x1e\x85\u2028\u2029"
 
 
@@ -523,6 +527,37 @@ def graph_shape(op_sel: List[Dict[str, Any]], frs: Dict[str, Dict[str, Any]], im
         res.count(f"{what}:graph: the closure walk must re-enter a fragment the generator already registered (a walk that visits each registered name once loses a fragment)")
     if dropped is False and any(not set(direct_spreads(frs[u]["sel"])) <= set(impl["mixins"]) | set(impl["unpacked"]) for u in impl["unpacked"] if u in frs):
         res.count(f"{what}:graph: a spread dropped where its fragment was unpacked is supplied by the closure walk (not in the trigger)")
+    if parent_iface_at_child_iface(op_sel, frs) & set(impl["unpacked"]):
+        res.count(f"{what}:graph: a fragment on a parent interface is unpacked at a position typed as an interface implementing it")
+
+
+def parent_iface_at_child_iface(op_sel: List[Dict[str, Any]], frs: Dict[str, Dict[str, Any]]) -> set:
+    """COVERAGE MEASURE for documents over GRAPH_SDL (field names are unique per type there): fragments on `Node` spread
+    directly in the selection set of a field typed `Resource` (interface Resource implements Node)"""
+    field_type = {f: t for f, t in GRAPH_ROOTS}
+    for fs in GRAPH_COMPOSITE.values():
+        field_type.update(dict(fs))
+    out: set = set()
+    seen: set = set()
+
+    def walk(sel: List[Dict[str, Any]], at_resource: bool) -> None:
+        for s in sel:
+            if s["k"] == "spread":
+                f = frs.get(s["name"])
+                if f is None:
+                    continue
+                if at_resource and f["on"] == "Node":
+                    out.add(s["name"])
+                if (s["name"], at_resource) not in seen:
+                    seen.add((s["name"], at_resource))
+                    walk(f["sel"], at_resource and f["on"] in ("Node", "Resource"))
+            elif s["k"] == "inline":
+                walk(s.get("sel", []), at_resource and s.get("on") in ("Node", "Resource"))
+            else:
+                walk(s.get("sel", []), field_type.get(s["name"]) == "Resource")
+
+    walk(op_sel, False)
+    return out
 
 
 def compare_sent_doc(case_label: Any, d: Dict[str, Any], marks_in: List[int], model: Dict[str, Any], frag_wires: Dict[str, Any],
@@ -580,7 +615,7 @@ def compare_sent_doc(case_label: Any, d: Dict[str, Any], marks_in: List[int], mo
     if py_mixin:
         res.count("sentdoc:trigger mixinOnFragDef")
     if not py_sound:
-        res.count("sentdoc:generator state NOT within reachable (outside Proved_02)")
+        res.count("sentdoc:generator state NOT within reachable (contradicts generator_state_sound)")
     # the undo of the theorem is guided by the marks; the reading of the property removes a leading __typename only
     # "where the authored text had none": every marked selection set must be one without a direct __typename
     by_sid: Dict[int, List[Dict[str, Any]]] = {}
@@ -858,6 +893,8 @@ GRAPH_SDL = """type Query {
   bot: Bot
   doc: Doc
   shelf: Shelf
+  resource: Resource
+  image: Image
   echoStr(s: String, ss: [String!]): String
 }
 
@@ -867,6 +904,11 @@ interface Node {
 
 interface Named {
   name: String
+}
+
+interface Resource implements Node {
+  id: ID!
+  url: String
 }
 
 type User implements Node & Named {
@@ -888,6 +930,13 @@ type Doc implements Node {
   title: String
   author: User
   refs: [Node!]
+  cover: Resource
+}
+
+type Image implements Resource & Node {
+  id: ID!
+  url: String
+  width: Int
 }
 
 type Shelf {
@@ -896,17 +945,23 @@ type Shelf {
   items: [Node!]!
   top: Doc
   hits: [SR!]
+  media: [Resource!]
 }
 
 union SR = User | Bot | Doc
 """
-GRAPH_SCALARS = {"Node": ["id"], "Named": ["name"], "User": ["id", "name"], "Bot": ["id", "name"], "Doc": ["id", "title"], "Shelf": ["id", "label"], "SR": []}
-GRAPH_MEMBERS = {"Node": ["User", "Bot", "Doc"], "Named": ["User", "Bot"], "SR": ["User", "Bot", "Doc"], "User": ["User"], "Bot": ["Bot"], "Doc": ["Doc"],
-                 "Shelf": ["Shelf"]}
-GRAPH_IFACES = {"User": ["Node", "Named"], "Bot": ["Node", "Named"], "Doc": ["Node"]}
-GRAPH_COMPOSITE = {"User": [("friend", "Node"), ("pet", "Named"), ("docs", "Doc")], "Bot": [("owner", "User")], "Doc": [("author", "User"), ("refs", "Node")],
-                   "Shelf": [("items", "Node"), ("top", "Doc"), ("hits", "SR")]}
-GRAPH_ROOTS = [("node", "Node"), ("named", "Named"), ("search", "SR"), ("me", "User"), ("bot", "Bot"), ("doc", "Doc"), ("shelf", "Shelf")]
+# `Resource implements Node`: an interface implementing an interface - a fragment on the PARENT interface spread at a position
+# typed as the CHILD interface is unpacked there (is_sub_type(Node, Resource)), one on the child at a parent position is dropped
+GRAPH_SCALARS = {"Node": ["id"], "Named": ["name"], "User": ["id", "name"], "Bot": ["id", "name"], "Doc": ["id", "title"], "Shelf": ["id", "label"], "SR": [],
+                 "Resource": ["id", "url"], "Image": ["id", "url", "width"]}
+GRAPH_MEMBERS = {"Node": ["User", "Bot", "Doc", "Image"], "Named": ["User", "Bot"], "SR": ["User", "Bot", "Doc"], "User": ["User"], "Bot": ["Bot"], "Doc": ["Doc"],
+                 "Shelf": ["Shelf"], "Resource": ["Image"], "Image": ["Image"]}
+GRAPH_IFACES = {"User": ["Node", "Named"], "Bot": ["Node", "Named"], "Doc": ["Node"], "Image": ["Resource", "Node"]}
+GRAPH_COMPOSITE = {"User": [("friend", "Node"), ("pet", "Named"), ("docs", "Doc")], "Bot": [("owner", "User")],
+                   "Doc": [("author", "User"), ("refs", "Node"), ("cover", "Resource")],
+                   "Shelf": [("items", "Node"), ("top", "Doc"), ("hits", "SR"), ("media", "Resource")]}
+GRAPH_ROOTS = [("node", "Node"), ("named", "Named"), ("search", "SR"), ("me", "User"), ("bot", "Bot"), ("doc", "Doc"), ("shelf", "Shelf"),
+               ("resource", "Resource"), ("image", "Image")]
 
 
 def gen_graph_case(rng: random.Random, idx: int, plant: float = 0.5) -> Optional[Dict[str, Any]]:
@@ -946,6 +1001,8 @@ def gen_graph_case(rng: random.Random, idx: int, plant: float = 0.5) -> Optional
         if len(GRAPH_MEMBERS[t]) > 1:
             for m in rng.sample(GRAPH_MEMBERS[t], rng.randint(0, 2)):
                 parts.append(f"... on {m} {{ {body(m, depth - 1, 0.6)} }}")
+        elif t == "Resource" and rng.random() < 0.4:  # an abstract type with one member
+            parts.append(f"... on Image {{ {body('Image', depth - 1, 0.6)} }}")
         elif t in GRAPH_IFACES and rng.random() < 0.08:
             i = rng.choice(GRAPH_IFACES[t])
             parts.append(f"... on {i} {{ {body(i, 0, 0.5)} }}")
@@ -967,7 +1024,7 @@ def gen_graph_case(rng: random.Random, idx: int, plant: float = 0.5) -> Optional
     def scalars(t: str) -> str:
         return " ".join(rng.sample(GRAPH_SCALARS[t], rng.randint(1, len(GRAPH_SCALARS[t])))) if GRAPH_SCALARS[t] else "__typename"
 
-    types = ["Node", "Node", "Named", "User", "User", "Bot", "Doc", "Doc", "Shelf", "SR"]
+    types = ["Node", "Node", "Named", "User", "User", "Bot", "Doc", "Doc", "Shelf", "SR", "Resource", "Image"]
     root_of = {t: f for f, t in GRAPH_ROOTS}
     planted: Dict[str, List[str]] = {}  # root field -> spreads the first operation must carry there
     s_name = None
@@ -1194,18 +1251,39 @@ def compare_embed(texts: List[Tuple[str, str, Optional[str]]], res: Result, st: 
         if model is None:
             continue
         m = model[i]
-        if trig is not None or "unmodelled" in m:
+        if trig in TEXT_DECLINED or "unmodelled" in m:
             if m.get("unmodelled") != trig:
                 res.mismatches.append(Mismatch("embed.trigger", inp, trig, m.get("unmodelled", "modelled")))
             elif preserved:
                 res.mismatches.append(Mismatch("embed.preserved-inside-trigger", inp, "preserved", "unmodelled", trigger=trig))
             continue
+        # the model answers: safe texts and the regions textEscN / textLineSep (exact there: `embed_described`)
+        if m.get("region") != trig:
+            res.mismatches.append(Mismatch("embed.trigger", inp, trig, m.get("region")))
+            continue
         got = {"unparsed": r.get("unparsed"), "literal": r.get("literal"), "sent": r.get("sent", r.get("error"))}
         want = {"unparsed": uncps(m["unparsed"]), "literal": uncps(m["literal"]), "sent": uncps(m["sent"])}
         if got != want:
-            res.mismatches.append(Mismatch("embed.pipeline", inp, got, want))
-        if uncps(m["expected"]) != expected_sent(k, t) or m["sent"] != m["expected"]:
-            res.mismatches.append(Mismatch("embed.expected", inp, expected_sent(k, t), {"sent": uncps(m["sent"]), "expected": uncps(m["expected"])}))
+            # inside a finding region a disagreement is not by itself a violation (the rewriter may have been repaired:
+            # `preserved`); it is counted, and on the unchanged tree the count is 0 (the model is exact there)
+            res.mismatches.append(Mismatch("embed.pipeline", inp, got, want, trigger=trig))
+            if trig is not None:
+                res.count(f"embed:{trig}:model and real pipeline DIFFER inside the region (" + ("real preserves the text" if preserved else "real damages it differently") + ")")
+        elif trig is not None:
+            res.count(f"embed:{trig}:model = real pipeline (unparsed, literal, sent text)")
+        if m["sent"] != m["described"]:  # the closed form of the theorem, evaluated by the driver
+            res.mismatches.append(Mismatch("embed.described", inp, r.get("sent", r.get("error")), {"sent": uncps(m["sent"]), "described": uncps(m["described"])},
+                                           trigger=trig))
+        if uncps(m["expected"]) != expected_sent(k, t):
+            res.mismatches.append(Mismatch("embed.expected", inp, expected_sent(k, t), {"expected": uncps(m["expected"])}, trigger=trig))
+        if trig is None:
+            if m["sent"] != m["expected"]:
+                res.mismatches.append(Mismatch("embed.expected", inp, expected_sent(k, t), {"sent": uncps(m["sent"]), "expected": uncps(m["expected"])}))
+        else:
+            res.count(f"embed:{trig}:model answers, " + ("predicts damage" if m["sent"] != m["expected"] else "predicts the text preserved"))
+            if m["sent"] == m["expected"]:
+                # `text_damaged_iff`: inside the two modelled regions the text never arrives unchanged
+                res.mismatches.append(Mismatch("embed.preserved-inside-trigger", inp, "preserved" if preserved else "damaged", "preserved", trigger=trig))
 
 
 def compare_pystr(rng: random.Random, n: int, res: Result, st: Optional[LeanStatus]) -> None:
@@ -1524,10 +1602,16 @@ def gen_texts(rng: random.Random, n: int) -> List[Tuple[str, str, Optional[str]]
     out: List[Tuple[str, str, Optional[str]]] = []
     for t in REAL_TEXTS:
         out += [(t, "client", None), (t, "extract", None)]
-    regions = list(TEXT_UNSAFE)
+    # the two regions in which the model answers (textEscN, textLineSep) get the larger share: there the whole pipeline is compared
+    regions = ["textEscN"] * 4 + ["textLineSep"] * 4 + ["textQuote"] * 2 + ["textBlockString"] * 2
     for i in range(n):
-        region = rng.choice(regions) if rng.random() < 0.15 else None
-        out.append((gen_text(rng, region), "client" if rng.random() < 0.7 else "extract", region))
+        region = rng.choice(regions) if rng.random() < 0.27 else None
+        t = gen_text(rng, region)
+        if region in ("textEscN", "textLineSep") and rng.random() < 0.3:  # several damages in one text, both kinds
+            for _ in range(rng.randint(1, 3)):
+                pos = rng.randint(0, len(t))
+                t = t[:pos] + rng.choice(TEXT_UNSAFE[rng.choice(("textEscN", "textLineSep"))]) + t[pos:]
+        out.append((t, "client" if rng.random() < 0.7 else "extract", region))
     return out
 
 
@@ -1585,8 +1669,10 @@ def run(ctx: Ctx, st: Optional[LeanStatus]) -> Result:
     _UNKNOWN_ALREADY_FOUND = any(common.match_finding(f, known) is None for f in res.failures)
     res.oracle_only += [
         "graphql-core print_ast / parse (the model's output is the document that is printed; the real string is parsed back)",
-        "black, isort, autoflake on the emitted module (observed through the real ast_to_str; the model covers unparse + the regex rewriter on safe texts)",
-        "the regex `.*?=.*?('.*?'\\s*){2,}` locating the statement (on safe texts it matches the whole assignment; validated by the embedding correspondence)",
+        "black, isort, autoflake on the emitted module (observed through the real ast_to_str; the model covers unparse + the rewriter on every text "
+        "without ' and triple quotes: the safe texts and the regions textEscN / textLineSep)",
+        "the regex `.*?=.*?('.*?'\\s*){2,}` locating the statement (on texts without ' it matches the whole assignment; validated by the embedding correspondence); "
+        "inside textQuote / textBlockString the rewriter is not modelled at all: findings F1, F4, F5 are replayed on the real code only",
         "re-indentation does not change the GraphQL parse: proved at token level over the reference lexer Spec/GqlLex.lean (validated against graphql-core's Lexer, "
         "also on the re-indented texts); at AST level observed by parse(sent) == authored in the oracle",
     ]
@@ -1595,8 +1681,8 @@ def run(ctx: Ctx, st: Optional[LeanStatus]) -> Result:
         "embed_safe holds for every such predicate",
         "fragments arguments / variable definitions are not part of the model's document IR: their preservation is judged by the oracle only",
     ]
-    res.extra["unproved_region"] = ("Proved_02 = generator state within reachable (StateSound) and marks fresh: see Properties/C02.lean; measured per case "
-                                    "in input_distribution (`generator state NOT within reachable`)")
+    res.extra["unproved_region"] = ("none: the former side condition Proved_02 (generator state within reachable) is the theorem generator_state_sound "
+                                    "(Properties/C02.lean); still measured per case in input_distribution (`generator state NOT within reachable`, expected 0)")
     return res
 
 
